@@ -2,8 +2,637 @@
 
 package main
 
-import "github.com/semihalev/sdns/internal/verif/vlib"
+import (
+	"fmt"
+	"strings"
 
-func gen(r *vlib.R, n int, tier string, emit func(string)) {}
+	"github.com/semihalev/sdns/internal/verif/vlib"
+)
 
-func facts() map[string]any { return map[string]any{} }
+const (
+	hour = 3600
+	day  = 24 * hour
+	d30  = 720 * hour
+	d90  = 2160 * hour
+)
+
+// special key material found by scanning the deterministic pool once.
+type specials struct {
+	sameTag [][2]int // materials whose 257-form key tags collide
+	wrap    []int    // materials whose revoked form's tag is not tag+128 (carry in the tag fold)
+}
+
+var spec *specials
+
+func findSpecials() *specials {
+	if spec != nil {
+		return spec
+	}
+	s := &specials{}
+	byTag := map[uint16]int{}
+	for id := 0; id < 1600; id++ {
+		t := tagOf(id, 257)
+		if o, ok := byTag[t]; ok {
+			s.sameTag = append(s.sameTag, [2]int{o, id})
+		} else {
+			byTag[t] = id
+		}
+		if tagOf(id, 385) != t+128 {
+			s.wrap = append(s.wrap, id)
+		}
+	}
+	spec = s
+	return s
+}
+
+type story struct {
+	r    *vlib.R
+	emit func(string)
+	n    int // ops emitted
+
+	cfg     []kref
+	mats    []int  // materials this case plays with
+	zone    []kref // KSK-ish keys the root currently publishes (with flags)
+	zsk     kref
+	pendAt  map[int]int64 // material -> virtual time it was first published (guess)
+	v       int64
+	revoked map[int]bool
+}
+
+func (st *story) op(format string, a ...any) {
+	st.emit(fmt.Sprintf(format, a...))
+	st.n++
+}
+
+func (st *story) tick(d int64) {
+	if d <= 0 {
+		return
+	}
+	d = d / 60 * 60
+	st.v += d
+	st.op("autota tick %d", d)
+}
+
+func shuffled[T any](r *vlib.R, xs []T) []T {
+	out := append([]T(nil), xs...)
+	for i := len(out) - 1; i > 0; i-- {
+		j := r.Intn(i + 1)
+		out[i], out[j] = out[j], out[i]
+	}
+	return out
+}
+
+func (st *story) faults(p int) string {
+	r := st.r
+	if !r.Chance(p, 100) {
+		return "-"
+	}
+	all := []string{"T", "S", "TS", "t", "s", "st", "tT", "sS", "tS", "sT", "tTS", "sTS", "stTS"}
+	w := []int{6, 6, 6, 4, 4, 1, 1, 1, 1, 1, 1, 1, 1}
+	tot := 0
+	for _, x := range w {
+		tot += x
+	}
+	k := r.Intn(tot)
+	for i, x := range w {
+		if k < x {
+			return all[i]
+		}
+		k -= x
+	}
+	return "-"
+}
+
+func (st *story) crash(p int) string {
+	if !st.r.Chance(p, 100) {
+		return "-"
+	}
+	return fmt.Sprint(st.r.Intn(3))
+}
+
+// run emits one refresh serving `set` signed by `signers`.
+func (st *story) run(set, signers []kref, bad []string, faults, crash string) {
+	fs := "-"
+	if len(set) > 0 {
+		fs = joinRefs(set)
+	}
+	line := fmt.Sprintf("autota run %s %s %s %s", fs, joinRefs(signers), faults, crash)
+	if len(bad) > 0 {
+		line += " bad=" + strings.Join(bad, ",")
+	}
+	st.emit(line)
+	st.n++
+}
+
+func (st *story) has(id int) int {
+	for i, k := range st.zone {
+		if k.id == id {
+			return i
+		}
+	}
+	return -1
+}
+
+// activeSigners: the non-revoked SEP keys of the zone.
+func (st *story) activeSigners() []kref {
+	var out []kref
+	for _, k := range st.zone {
+		if k.sep() && !k.revoked() {
+			out = append(out, k)
+		}
+	}
+	return out
+}
+
+func (st *story) revokedSigners() []kref {
+	var out []kref
+	for _, k := range st.zone {
+		if k.revoked() {
+			out = append(out, k)
+		}
+	}
+	return out
+}
+
+func (st *story) served() []kref {
+	set := append([]kref(nil), st.zone...)
+	if st.r.Chance(2, 3) {
+		set = append(set, st.zsk)
+	}
+	return shuffled(st.r, set)
+}
+
+var badKinds = []string{"w", "e", "f", "p", "x"}
+
+// honest serves the zone as it is: signed by every active KSK (or a
+// non-empty part of them: co-signing) and self-signed by every revoked key.
+func (st *story) honest(faultP, crashP int) {
+	r := st.r
+	act := st.activeSigners()
+	var signers []kref
+	for _, k := range act {
+		if r.Chance(4, 5) {
+			signers = append(signers, k)
+		}
+	}
+	if len(signers) == 0 && len(act) > 0 {
+		signers = append(signers, vlib.Pick(r, act))
+	}
+	signers = append(signers, st.revokedSigners()...)
+	if r.Chance(1, 3) {
+		signers = append(signers, st.zsk)
+	}
+	var bad []string
+	if r.Chance(1, 8) && len(act) > 0 {
+		bad = append(bad, vlib.Pick(r, act).String()+":"+vlib.Pick(r, badKinds))
+	}
+	st.run(st.served(), shuffled(r, signers), bad, st.faults(faultP), st.crash(crashP))
+}
+
+// zone mutations -------------------------------------------------------
+
+func (st *story) freshMat() int {
+	for i := 0; i < 20; i++ {
+		m := vlib.Pick(st.r, st.mats)
+		if st.has(m) < 0 && !st.revoked[m] {
+			return m
+		}
+	}
+	return vlib.Pick(st.r, st.mats)
+}
+
+func (st *story) addKey() {
+	m := st.freshMat()
+	if st.has(m) >= 0 {
+		return
+	}
+	st.zone = append(st.zone, mk(m, 257))
+	st.pendAt[m] = st.v
+}
+
+func (st *story) removeKey() {
+	if len(st.zone) <= 1 {
+		return
+	}
+	i := st.r.Intn(len(st.zone))
+	st.zone = append(st.zone[:i:i], st.zone[i+1:]...)
+}
+
+func (st *story) revokeKey() {
+	var cand []int
+	for i, k := range st.zone {
+		if !k.revoked() {
+			cand = append(cand, i)
+		}
+	}
+	if len(cand) == 0 {
+		return
+	}
+	i := vlib.Pick(st.r, cand)
+	st.zone[i] = mk(st.zone[i].id, 385)
+	st.revoked[st.zone[i].id] = true
+}
+
+// adversarial / irregular publications -----------------------------------
+
+func (st *story) irregular() {
+	r := st.r
+	act := st.activeSigners()
+	switch r.Intn(9) {
+	case 0: // attacker adds its own key and signs with it only
+		x := mk(900+r.Intn(40), 257)
+		set := append(st.served(), x)
+		var bad []string
+		if len(act) > 0 && r.Bool() {
+			bad = append(bad, vlib.Pick(r, act).String()+":"+vlib.Pick(r, badKinds))
+		}
+		st.run(set, []kref{x}, bad, st.faults(10), st.crash(5))
+	case 1: // only invalid signatures by genuine keys
+		var bad []string
+		for _, k := range act {
+			bad = append(bad, k.String()+":"+vlib.Pick(r, badKinds))
+		}
+		st.run(st.served(), nil, bad, st.faults(10), "-")
+	case 2: // revocation-only: a revoked form of a published key signs alone
+		if len(act) == 0 {
+			st.honest(10, 5)
+			return
+		}
+		victim := vlib.Pick(r, act)
+		rev := mk(victim.id, 385)
+		var set []kref
+		for _, k := range st.zone {
+			if k.id == victim.id {
+				set = append(set, rev)
+			} else {
+				set = append(set, k)
+			}
+		}
+		// and tries to smuggle a new key in / drop another one
+		if r.Bool() {
+			set = append(set, mk(st.freshMat(), 257))
+		}
+		if r.Chance(1, 3) && len(set) > 1 {
+			set = set[1:]
+		}
+		signers := []kref{rev}
+		if r.Chance(1, 4) {
+			signers = nil // revoke bit without self-signature
+		}
+		st.run(shuffled(r, set), signers, nil, st.faults(25), st.crash(10))
+		if r.Chance(2, 3) {
+			// the zone really did revoke it
+			if i := st.has(victim.id); i >= 0 {
+				st.zone[i] = rev
+				st.revoked[victim.id] = true
+			}
+		}
+	case 3: // empty answer / failing query
+		if r.Bool() {
+			st.run(nil, nil, nil, st.faults(10), "-")
+		} else {
+			st.emit("autota run none - " + st.faults(10) + " -")
+			st.n++
+		}
+	case 4: // key whose tag collides with a published / configured one
+		sp := findSpecials()
+		if len(sp.sameTag) == 0 {
+			st.honest(10, 5)
+			return
+		}
+		p := vlib.Pick(r, sp.sameTag)
+		a, b := p[0], p[1]
+		if r.Bool() {
+			a, b = b, a
+		}
+		set := st.served()
+		flags := uint16(257)
+		if r.Chance(1, 3) {
+			flags = 385
+		}
+		set = append(set, mk(b, flags))
+		_ = a
+		signers := act
+		if flags == 385 {
+			signers = append(append([]kref(nil), act...), mk(b, 385))
+		}
+		st.run(shuffled(r, set), signers, nil, st.faults(10), "-")
+	case 5: // a signer that is not in the set (key removed but still signing)
+		if len(act) < 2 {
+			st.honest(10, 5)
+			return
+		}
+		gone := act[0]
+		var set []kref
+		for _, k := range st.served() {
+			if k.id != gone.id {
+				set = append(set, k)
+			}
+		}
+		st.run(set, []kref{gone}, nil, st.faults(10), st.crash(5))
+	case 6: // the same tag twice in one answer (revoked and fresh form of one key, or duplicates)
+		if len(st.zone) == 0 {
+			return
+		}
+		k := vlib.Pick(r, st.zone)
+		set := append(st.served(), mk(k.id, k.flags^0x80))
+		signers := append([]kref(nil), act...)
+		if r.Bool() {
+			signers = append(signers, mk(k.id, 385))
+		}
+		st.run(shuffled(r, set), signers, nil, st.faults(10), "-")
+	case 7: // revoked form published for a key that is not (yet) trusted
+		m := st.freshMat()
+		set := append(st.served(), mk(m, 385))
+		st.run(set, append(append([]kref(nil), act...), mk(m, 385)), nil, st.faults(10), "-")
+	default: // only the ZSK signs
+		st.run(st.served(), []kref{st.zsk}, nil, "-", "-")
+	}
+}
+
+var tickChoices = []int64{
+	60, 12 * hour, day, 10 * day, 29 * day, d30 - 60, d30, d30 + 60, d30 + day, 45 * day,
+	d90 - 60, d90, d90 + 60, d90 - d30, 100 * day,
+}
+
+func (st *story) randomTick() {
+	st.tick(vlib.Pick(st.r, tickChoices))
+}
+
+// tickTo moves the clock so that `since` is `target`+delta seconds old.
+func (st *story) tickTo(since int64, target int64) {
+	delta := vlib.Pick(st.r, []int64{-60, 0, 60, 60, hour})
+	want := since + target + delta
+	if want > st.v {
+		st.tick(want - st.v)
+	}
+}
+
+func stateEntry(k kref, stName string, ageMin int64) string {
+	return fmt.Sprintf("%s/%s/%d", k.String(), stName, ageMin)
+}
+
+func (st *story) start(cfg []kref) {
+	st.cfg = cfg
+	st.emit("autota new " + joinRefs(cfg))
+	st.n++
+	st.zone = nil
+	for _, k := range cfg {
+		if k.sep() && !k.revoked() && st.has(k.id) < 0 {
+			st.zone = append(st.zone, k)
+		}
+	}
+}
+
+func newStory(r *vlib.R, emit func(string)) *story {
+	st := &story{r: r, emit: emit, pendAt: map[int]int64{}, revoked: map[int]bool{}}
+	base := r.Intn(60) * 8
+	for i := 0; i < 8; i++ {
+		st.mats = append(st.mats, base+i)
+	}
+	st.zsk = mk(base+7, 256)
+	st.mats = st.mats[:7]
+	return st
+}
+
+// ---- scripted stories (each clause of the property at least once per run)
+
+func storyRollover(st *story) {
+	r := st.r
+	a, b := st.mats[0], st.mats[1]
+	st.start([]kref{mk(a, 257)})
+	st.honest(0, 0)
+	st.zone = append(st.zone, mk(b, 257))
+	t0 := st.v
+	st.honest(5, 0)
+	if r.Bool() {
+		st.tick(10 * day)
+		st.honest(10, 5)
+	}
+	st.tickTo(t0, d30)
+	st.honest(0, 0)
+	st.tick(2 * hour)
+	st.honest(0, 0)
+	// revoke the old key, under a fault / crash in some runs
+	st.revokeKey0(a)
+	f := vlib.Pick(r, []string{"-", "-", "T", "S", "TS", "TS"})
+	c := vlib.Pick(r, []string{"-", "-", "0", "1", "2"})
+	st.run(st.served(), append(st.activeSigners(), st.revokedSigners()...), nil, f, c)
+	if r.Bool() {
+		st.op("autota restart")
+	}
+	st.honest(0, 0)
+	// the root drops the revoked key; the stale configuration still lists it
+	if i := st.has(a); i >= 0 && r.Bool() {
+		st.zone = append(st.zone[:i:i], st.zone[i+1:]...)
+	}
+	st.op("autota restart")
+	st.honest(0, 0)
+	switch r.Intn(4) {
+	case 0:
+		st.run(st.served(), st.activeSigners(), nil, "t", "-")
+	case 1:
+		st.run(st.served(), st.activeSigners(), nil, "s", "-")
+	}
+	st.honest(10, 5)
+}
+
+func (st *story) revokeKey0(id int) {
+	if i := st.has(id); i >= 0 {
+		st.zone[i] = mk(id, 385)
+		st.revoked[id] = true
+	}
+}
+
+func storyMissing(st *story) {
+	r := st.r
+	a, b := st.mats[0], st.mats[1]
+	st.start([]kref{mk(a, 257), mk(b, 257)})
+	st.honest(0, 0)
+	i := st.has(b)
+	st.zone = append(st.zone[:i:i], st.zone[i+1:]...)
+	t0 := st.v
+	st.honest(0, 0)
+	if r.Bool() {
+		st.tick(40 * day)
+		st.honest(10, 5)
+		if r.Bool() { // reappears, then disappears again: the 90 days restart
+			st.zone = append(st.zone, mk(b, 257))
+			st.honest(0, 0)
+			i := st.has(b)
+			st.zone = append(st.zone[:i:i], st.zone[i+1:]...)
+			st.tick(day)
+			t0 = st.v
+			st.honest(0, 0)
+		}
+	}
+	st.tickTo(t0, d90)
+	st.honest(0, 0)
+	st.tick(day)
+	st.honest(5, 5)
+	st.zone = append(st.zone, mk(b, 257))
+	st.honest(0, 0)
+}
+
+func storyLegacy(st *story) {
+	r := st.r
+	a, b, c, d := st.mats[0], st.mats[1], st.mats[2], st.mats[3]
+	cfg := []kref{mk(a, 257), mk(b, 257)}
+	if r.Bool() {
+		cfg = append(cfg, mk(c, 385)) // admin pre-seeded a revoked key
+	}
+	st.start(cfg)
+	var ents []string
+	ents = append(ents, stateEntry(mk(a, 257), "V", 1000))
+	ents = append(ents, stateEntry(mk(b, 257), vlib.Pick(r, []string{"R", "X", "V", "M"}), int64(r.Intn(3))*43200+int64(vlib.Pick(r, []int{-1, 0, 1}))+129600))
+	if r.Bool() {
+		ents = append(ents, stateEntry(mk(d, 257), vlib.Pick(r, []string{"P", "S", "P"}), 43200+int64(vlib.Pick(r, []int{-1, 0, 1, 2}))))
+	}
+	tomb := "-"
+	switch r.Intn(4) {
+	case 0:
+		tomb = fmt.Sprint(b)
+	case 1:
+		tomb = fmt.Sprintf("%d,%d", a, st.mats[5])
+	case 2:
+		tomb = "empty"
+	}
+	st.op("autota seed %s %s", strings.Join(ents, ","), tomb)
+	st.zone = []kref{mk(a, 257), mk(b, 257)}
+	if r.Bool() {
+		st.zone = append(st.zone, mk(d, 257))
+	}
+	st.run(st.served(), st.activeSigners(), nil, vlib.Pick(r, []string{"-", "T", "S", "TS", "t", "s"}), vlib.Pick(r, []string{"-", "-", "0", "1", "2"}))
+	st.op("autota restart")
+	st.honest(0, 0)
+	st.honest(15, 5)
+}
+
+func storyCollision(st *story) {
+	r := st.r
+	sp := findSpecials()
+	if len(sp.sameTag) == 0 {
+		storyRollover(st)
+		return
+	}
+	p := vlib.Pick(r, sp.sameTag)
+	a := st.mats[0]
+	x, y := p[0], p[1]
+	if r.Bool() {
+		x, y = y, x
+	}
+	switch r.Intn(3) {
+	case 0:
+		// pending key x; later the root publishes y (same tag) instead of x
+		st.start([]kref{mk(a, 257)})
+		st.zone = append(st.zone, mk(x, 257))
+		st.honest(0, 0)
+		st.tick(10 * day)
+		st.zone[st.has(x)] = mk(y, 257)
+		st.honest(0, 0)
+		st.tick(20*day + 120)
+		if r.Bool() {
+			st.zone[st.has(y)] = mk(x, 257)
+		}
+		st.honest(0, 0)
+		st.tick(hour)
+		st.honest(0, 0)
+	case 1:
+		// trusted key x; a revoked key y' whose tag-128 hits x's tag
+		st.start([]kref{mk(x, 257), mk(a, 257)})
+		st.honest(0, 0)
+		st.zone = append(st.zone, mk(y, 385))
+		st.honest(0, 0)
+		st.run(st.served(), []kref{mk(y, 385)}, nil, "-", "-")
+		st.zone = st.zone[:len(st.zone)-1]
+		st.honest(0, 0)
+	default:
+		// both configured: one tag, two anchors
+		st.start([]kref{mk(x, 257), mk(y, 257), mk(a, 257)})
+		st.zone = []kref{mk(x, 257), mk(y, 257), mk(a, 257)}
+		st.honest(0, 0)
+		st.op("autota restart")
+		st.run(st.served(), []kref{mk(y, 257)}, nil, "s", "-")
+		st.honest(0, 0)
+	}
+	if len(sp.wrap) > 0 && r.Bool() {
+		// a key whose revoked form does not have tag+128
+		w := vlib.Pick(r, sp.wrap)
+		st.start([]kref{mk(w, 257), mk(a, 257)})
+		st.honest(0, 0)
+		st.revokeKey0(w)
+		st.honest(0, 0)
+		st.honest(0, 0)
+	}
+}
+
+func storyRandom(st *story, steps int) {
+	r := st.r
+	n := 1 + r.Intn(3)
+	var cfg []kref
+	for i := 0; i < n; i++ {
+		flags := uint16(257)
+		switch r.Intn(14) {
+		case 0:
+			flags = 385
+		case 1:
+			flags = 256
+		}
+		cfg = append(cfg, mk(st.mats[i], flags))
+	}
+	st.start(cfg)
+	if len(st.zone) == 0 {
+		st.zone = append(st.zone, mk(st.mats[3], 257))
+	}
+	for i := 0; i < steps; i++ {
+		switch k := r.Intn(100); {
+		case k < 40:
+			st.honest(12, 6)
+		case k < 52:
+			st.irregular()
+		case k < 60:
+			st.addKey()
+			st.honest(8, 4)
+		case k < 65:
+			st.removeKey()
+			st.honest(8, 4)
+		case k < 71:
+			st.revokeKey()
+			st.honest(20, 12)
+		case k < 88:
+			st.randomTick()
+		case k < 95:
+			st.op("autota restart")
+		case k < 97:
+			st.op("autota damage %s", vlib.Pick(r, []string{"tomb", "state", "state"}))
+		default:
+			// 30-day boundary for whatever is pending
+			for m, t := range st.pendAt {
+				if st.has(m) >= 0 {
+					st.tickTo(t, d30)
+					break
+				}
+			}
+			st.honest(0, 0)
+		}
+	}
+}
+
+func gen(r *vlib.R, n int, tier string, emit func(string)) {
+	findSpecials()
+	count := 0
+	wrap := func(s string) { emit(s); count++ }
+	scripted := []func(*story){storyRollover, storyMissing, storyLegacy, storyCollision}
+	for _, f := range scripted {
+		f(newStory(r, wrap))
+	}
+	for count < n {
+		st := newStory(r, wrap)
+		switch k := r.Intn(10); {
+		case k < 5:
+			storyRandom(st, 8+r.Intn(20))
+		default:
+			vlib.Pick(r, scripted)(st)
+		}
+	}
+}
